@@ -120,6 +120,20 @@ def try_const(ctx, fi: FuncInfo, e: ast.expr, default=None):
         return default
 
 
+def mentions_text(ctx, fi: FuncInfo, node: ast.AST, text: str) -> bool:
+    """does the code under `node` mention the string `text`, as a literal or through the name of a module-level constant?"""
+    for x in ast.walk(node):
+        if isinstance(x, ast.Constant) and x.value == text:
+            return True
+        if isinstance(x, ast.Name) and isinstance(x.ctx, ast.Load):
+            try:
+                if ctx.repo.try_const(fi.module, x.id, None) == text:
+                    return True
+            except Exception:
+                pass
+    return False
+
+
 def own_walk(node: ast.AST) -> Iterator[ast.AST]:
     """walk excluding nested function / lambda bodies"""
     stack = [node]
